@@ -23,7 +23,7 @@ RULE = (
     "from its registration), same contents; after each non-report message m follow exactly one eliot:destination_failure "
     "per destination that raised on m, in registration order, carrying the module-qualified class, its text and a "
     "rendering that names m; failures on reports produce no report; number of non-report messages equals the program's "
-    "message count. Facets concurrent(-enum): 2-3 threads logging through one Destinations under line-level schedules "
+    "message count. Facets concurrent(-enum): 2-3 threads logging through one Destinations under schedules at source-line or bytecode-instruction granularity "
     "(generated plans and every single preemption): every destination is offered every message exactly once and every "
     "failure on a non-report message is reported exactly once. Non-trivial: >= 2 destinations of which >= 1 fails on a proper non-empty subset of its calls incl. at "
     "least one failure on a report. Distinct = canonical JSON of the case."
@@ -270,7 +270,7 @@ def check_concurrent(case):
 
             return run
 
-        s = sched.Scheduler(("eliot/_output.py",), case["plan"])
+        s = sched.Scheduler(("eliot/_output.py",), case["plan"], opcodes=bool(case.get("opcodes")))
         s.run([worker(i, c) for i, c in enumerate(case["threads"])])
     finally:
         Logger._destinations = saved
@@ -309,6 +309,7 @@ def classify_concurrent(case, info):
     labels = ["threads=%d" % len(case["threads"]), "failures=%d" % min(info["failures"], 4), "switches=%d" % min(info["switches"], 6)]
     if info["switch_inside"]:
         labels.append("preempted-inside-send")
+    labels.append("granularity:bytecode" if case.get("opcodes") else "granularity:line")
     return info["switch_inside"] >= 1 and info["failures"] >= 1, labels
 
 
@@ -322,7 +323,8 @@ def concurrent_strategy():
         st.sampled_from([None, None, 1, 2]),
     )
     return st.builds(
-        lambda dests, plan, threads: {"dests": dests, "plan": plan, "threads": threads},
+        lambda opc, dests, plan, threads: sched.with_granularity({"dests": dests, "plan": plan, "threads": threads}, opc),
+        st.sampled_from([False, False, True]),
         st.lists(dest, min_size=1, max_size=2),
         sched.plans(max_segments=10, max_steps=30, workers=3),
         st.lists(st.integers(1, 2), min_size=2, max_size=3),
